@@ -5,4 +5,6 @@ cd "$(dirname "$0")"
 export CARGO_NET_OFFLINE=true
 export CARGO_TARGET_DIR=/verif/.target
 cargo build --offline --profile verif --manifest-path harness/Cargo.toml --bin run
+# warm the Miri build of the harness (used by the C17 quick check); a failure here is reported by that check, not by setup
+MIRIFLAGS=-Zmiri-disable-isolation CARGO_TARGET_DIR=/verif/.target/miri-target cargo +nightly miri run --offline --manifest-path harness/Cargo.toml --bin run -- C20 --tier small --scale 0.001 --out /dev/null >/dev/null 2>&1 || echo "warning: Miri warm-up failed"
 echo "setup ok"
